@@ -35,6 +35,16 @@ let table_xof (tbl : string) =
     | Some o -> bytes_of_hex o
     | None -> if Big_int_Z.sign_big_int n = 0 then [] (* io.ReadFull of 0 bytes makes no Read call *) else raise Miss
 
+let suite_of = function
+  | "k256" -> k256_suite
+  | "p256" -> p256_suite
+  | "bls12381g1" -> bls12381g1_suite
+  | s -> failwith ("unknown suite " ^ s)
+
+let show_pt = function
+  | None -> "inf"
+  | Some (x, y) -> hex_of_z x ^ "," ^ hex_of_z y
+
 let () =
   iter_lines (fun line ->
     match String.split_on_char ' ' line with
@@ -63,4 +73,33 @@ let () =
           (z_of_string count) (bytes_of_hex u) in
       Printf.printf "U %s %s\n" id
         (String.concat ";" (List.map (fun e -> String.concat "," (List.map hex_of_z e)) r))
+    | ["HF"; id; suite; scalar; count; b; s; dst; msg; tbl] ->
+      let r = try
+          (match ws_h2f (table_fn tbl) (z_of_string b) (z_of_string s) (suite_of suite) (scalar = "1")
+                   (z_of_string count) (bytes_of_hex dst) (bytes_of_hex msg) with
+           | None -> "PANIC"
+           | Some us -> String.concat "," (List.map hex_of_z us))
+        with Miss -> "MISS" in
+      Printf.printf "HF %s %s\n" id r
+    | ["HC"; id; suite; b; s; dst; msg; tbl] ->
+      let su = suite_of suite in
+      let h = table_fn tbl and bb = z_of_string b and ss = z_of_string s in
+      let r = try
+          (match ws_h2f h bb ss su false (z_of_int 2) (bytes_of_hex dst) (bytes_of_hex msg),
+                 ws_hash_to_curve h bb ss su (bytes_of_hex dst) (bytes_of_hex msg) with
+           | Some us, Some p ->
+             let qs = List.map (fun u -> show_pt (ws_to_affine su (ws_map su u))) us in
+             String.concat ";" [String.concat "," (List.map hex_of_z us); String.concat ";" qs; show_pt p;
+                                string_of_bool (ws_on_curve su p); string_of_bool (ws_in_subgroup su p)]
+           | _ -> "PANIC")
+        with Miss -> "MISS" in
+      Printf.printf "HC %s %s\n" id r
+    | ["EN"; id; suite; b; s; dst; msg; tbl] ->
+      let su = suite_of suite in
+      let r = try
+          (match ws_encode_to_curve (table_fn tbl) (z_of_string b) (z_of_string s) su (bytes_of_hex dst) (bytes_of_hex msg) with
+           | Some p -> show_pt p
+           | None -> "PANIC")
+        with Miss -> "MISS" in
+      Printf.printf "EN %s %s\n" id r
     | _ -> failwith ("bad line " ^ line))
